@@ -21,6 +21,10 @@ struct Hist {
     id: usize,
     /// per-mille weights: refuse, crash, reload, key-entry, aux, same-message
     mix: [u64; 6],
+    /// (first counter, number of signatures) of the stretches of the key's life that are played;
+    /// empty = the complete lifetime.  All stretches share one ghost map, so that a one-time key
+    /// used in two distant stretches is seen.
+    windows: Vec<(u64, u64)>,
 }
 
 fn mix_label(m: &[u64; 6]) -> String {
@@ -39,7 +43,9 @@ fn run_hist(h: Hist, w: &mut Worker, ctx: &Ctx) {
             return;
         }
     };
-    let total = hss::total_leaves(&h.levels) as u64;
+    let total = hss::total_leaves(&h.levels).min(u64::MAX as u128) as u64;
+    let complete = h.windows.is_empty();
+    let windows: Vec<(u64, u64)> = if complete { vec![(0, total)] } else { h.windows.clone() };
     let mut persisted = kp.sk.clone();
     let mut aux_live = valid_aux.clone(); // an aux buffer that travels with the key
     let stale_aux = {
@@ -51,6 +57,7 @@ fn run_hist(h: Hist, w: &mut Worker, ctx: &Ctx) {
     };
     let mut ghost = GhostMap::new();
     let mut released: u64 = 0;
+    let mut released_total: u64 = 0;
     let mut last_msg: Vec<u8> = b"first".to_vec();
     let mut log: Vec<String> = Vec::new(); // compact history for the witness
     let mut failed_attempts = 0u64;
@@ -68,7 +75,13 @@ fn run_hist(h: Hist, w: &mut Worker, ctx: &Ctx) {
             .with("history_tail", J::Arr(log.iter().rev().take(12).rev().map(|s| J::s(s)).collect()))
             .with("persisted_key", J::hex(persisted))
     };
-    while released < total && steps < total * 6 + 50 {
+    for (wstart, wcount) in windows {
+    // the state a key is in after `wstart` signatures (the bytes are the state)
+    persisted = hss::make_blob(wstart, &h.levels, &h.seed);
+    released = wstart;
+    let wend = wstart.saturating_add(wcount).min(total);
+    steps = 0;
+    while released < wend && steps < wcount * 6 + 50 {
         steps += 1;
         let roll = rng.below(1000);
         let mlen = rng.range(0, 48) + 1;
@@ -121,6 +134,7 @@ fn run_hist(h: Hist, w: &mut Worker, ctx: &Ctx) {
                     w.report.violation(&hist_key("released_without_persist"), &format!("a signature was released although the key update was {script}d"), witness(&log, &persisted));
                 }
                 released += 1;
+                released_total += 1;
                 w.report.count("released_signatures", 1);
                 log.push(format!("sign#{released}@{counter_before}:{entry:?}"));
                 // leaf indices = mixed-radix digits of released-1
@@ -190,6 +204,7 @@ fn run_hist(h: Hist, w: &mut Worker, ctx: &Ctx) {
             }
         }
     }
+    }
     // after the last leaf: the persisted key refuses, with every entry point
     if released == total {
         let rec = libcall::sign_bytes(h.alg, &persisted, b"after the end", Cb::Accept, None);
@@ -205,12 +220,16 @@ fn run_hist(h: Hist, w: &mut Worker, ctx: &Ctx) {
         span >>= l.h;
         expect_keys += total / span.max(1);
     }
-    w.report.count("one_time_keys_expected", expect_keys as i128);
+    if complete {
+        w.report.count("one_time_keys_expected", expect_keys as i128);
+    } else {
+        w.report.count("tall_key_stretches_played", 1);
+    }
     w.report.count("repeated_content_hits", ghost.repeats as i128);
     w.report.count("failed_attempts", failed_attempts as i128);
     w.report.count("reloads", reloads as i128);
     w.report.count("histories", 1);
-    if released == total && ghost.len() as u64 != expect_keys {
+    if complete && released == total && ghost.len() as u64 != expect_keys {
         w.report.violation(
             &hist_key("ots_key_count"),
             &format!("a complete lifetime used {} distinct one-time keys, expected {}", ghost.len(), expect_keys),
@@ -221,7 +240,7 @@ fn run_hist(h: Hist, w: &mut Worker, ctx: &Ctx) {
         w.report.distinct(&format!("{}|{}|{}", h.alg.name(), lvs, mix_label(&h.mix)));
     }
     if w.report.samples.len() < 4 {
-        w.report.sample(witness(&log, &persisted).with("released", J::Int(released as i128)).with("failed_attempts", J::Int(failed_attempts as i128)).with("reloads", J::Int(reloads as i128)));
+        w.report.sample(witness(&log, &persisted).with("released", J::Int(released_total as i128)).with("failed_attempts", J::Int(failed_attempts as i128)).with("reloads", J::Int(reloads as i128)));
     }
 }
 
@@ -262,28 +281,57 @@ pub fn run(ctx: &Ctx) -> Report {
                         rng.below(6) * 100,
                         rng.below(4) * 100,
                     ];
-                    hists.push(Hist { alg, levels: lv, seed: rng.bytes(alg.n()), id, mix });
+                    hists.push(Hist { alg, levels: lv, seed: rng.bytes(alg.n()), id, mix, windows: vec![] });
                 }
             }
+        }
+    }
+    // stretches of the life of keys with a total height above 32: the first signatures, the
+    // stretch across 2^32 (where a 32-bit counter or leaf computation wraps), and the end of life
+    {
+        let tall: Vec<(Alg, Vec<(u32, u32)>)> = if ctx.quick() {
+            vec![(Alg::Sha256_128, vec![(5, 8); 7]), (Alg::Sha256_192, vec![(2, 8), (5, 8), (5, 4), (5, 8), (5, 8), (5, 8), (5, 8), (2, 8)])]
+        } else {
+            vec![
+                (Alg::Sha256_128, vec![(5, 8); 7]),
+                (Alg::Sha256_192, vec![(2, 8), (5, 8), (5, 4), (5, 8), (5, 8), (5, 8), (5, 8), (2, 8)]),
+                (Alg::Sha256_256, vec![(5, 8), (10, 8), (5, 8), (5, 4), (5, 8), (5, 8)]),
+                (Alg::Shake256_128, vec![(5, 4); 7]),
+            ]
+        };
+        for (alg, spec) in tall {
+            let lv = levels(&spec);
+            let total = hss::total_leaves(&lv) as u64;
+            let two32 = 1u64 << 32;
+            id += 1;
+            hists.push(Hist {
+                alg,
+                levels: lv,
+                seed: rng.bytes(alg.n()),
+                id,
+                mix: [100, 20, 100, 300, 0, 100],
+                windows: vec![(0, 4), (two32 - 3, 7), (2 * two32 - 1, 3), (total - 3, 3)],
+            });
         }
     }
     if !ctx.quick() {
         for alg in [Alg::Sha256_256, Alg::Sha256_128, Alg::Shake256_192] {
             id += 1;
-            hists.push(Hist { alg, levels: levels(&[(5, 4), (5, 2)]), seed: rng.bytes(alg.n()), id, mix: [120, 30, 120, 300, 300, 200] });
+            hists.push(Hist { alg, levels: levels(&[(5, 4), (5, 2)]), seed: rng.bytes(alg.n()), id, mix: [120, 30, 120, 300, 300, 200], windows: vec![] });
             id += 1;
-            hists.push(Hist { alg, levels: (0..6).map(|i| Level { h: 2, w: [8, 4, 2, 8, 4, 8][i] }).collect(), seed: rng.bytes(alg.n()), id, mix: [80, 20, 80, 300, 200, 100] });
+            hists.push(Hist { alg, levels: (0..6).map(|i| Level { h: 2, w: [8, 4, 2, 8, 4, 8][i] }).collect(), seed: rng.bytes(alg.n()), id, mix: [80, 20, 80, 300, 200, 100], windows: vec![] });
         }
     }
+    let played = |h: &Hist| if h.windows.is_empty() { hss::total_leaves(&h.levels) as f64 } else { h.windows.iter().map(|w| w.1 as f64).sum() };
     hists.sort_by(|a, b| {
-        let ca = shared::sign_cost(a.alg, &a.levels) * hss::total_leaves(&a.levels) as f64;
-        let cb = shared::sign_cost(b.alg, &b.levels) * hss::total_leaves(&b.levels) as f64;
+        let ca = shared::sign_cost(a.alg, &a.levels) * played(a);
+        let cb = shared::sign_cost(b.alg, &b.levels) * played(b);
         cb.partial_cmp(&ca).unwrap()
     });
     let n = hists.len();
     let mut rep = par_run(ctx, hists, |h, w| run_hist(h, w, ctx));
     rep.count("histories_planned", n as i128);
-    rep.rule = "many short seeded histories over complete key lifetimes (1..4 levels, uniform and mixed heights, all 6 hashes): steps = sign(accept) with fresh or repeated message / sign with refusing callback then retry / callback that crashes then retry / reload from the persisted bytes / SigningKey::try_sign[_with_aux] vs byte-level sign / no, own, foreign or fresh aux; \
+    rep.rule = "many short seeded histories over complete key lifetimes (1..4 levels, uniform and mixed heights, all 6 hashes) plus, for 7- and 8-level keys of total height 35..42, the stretches at the start, across 2^32, across 2^33 and at the end of life in one shared ghost map: steps = sign(accept) with fresh or repeated message / sign with refusing callback then retry / callback that crashes then retry / reload from the persisted bytes / SigningKey::try_sign[_with_aux] vs byte-level sign / no, own, foreign or fresh aux; \
                 the recorded history (signatures returned, keys persisted) is checked offline by the OTS ghost map, the mixed-radix digit rule and the counter+1 rule; \
                 distinct_nontrivial = distinct (hash, shape, step mix) histories that contained at least one failed attempt and one reload"
         .into();
